@@ -95,6 +95,14 @@ theorem cmp_swap (fo : FOps) (ctx : Ctx) (hctx : ctx ≠ .pattern) (l r : Value)
   simp only [mathCmp, Ext.cmp_rev x y]
   cases Ext.cmp x y <;> simp [CmpOp.holds, Ordering.rev]
 
+/-- `Ext.cmp` on finite values is the order of the rational numbers `num · 2^exp` (Lean's `Rat`):
+the oracle is the mathematical order. -/
+theorem order_is_the_rational_order (x y : Dy) :
+    (Ext.cmp (.fin x) (.fin y) = .lt ↔ x.toRat < y.toRat) ∧
+      (Ext.cmp (.fin x) (.fin y) = .eq ↔ x.toRat = y.toRat) ∧
+      (Ext.cmp (.fin x) (.fin y) = .gt ↔ y.toRat < x.toRat) :=
+  ⟨Dy.cmp_lt_iff x y, Dy.cmp_eq_iff x y, Dy.cmp_gt_iff x y⟩
+
 /-- The exact integer/float comparison added by the repair (`cmp_int_float`) computes the
 mathematical order of an arbitrary `i64` and an arbitrary non-NaN `f64`. -/
 theorem cmp_int_float_exact (a : Int64) (b : F) (y : Ext) (hb : b.ext = some y) :
